@@ -28,7 +28,7 @@ SPEC = dict(
         "hand-written model coq/models/Version.v of strutil/version.go, tied by the differential run (harness/overlay/strutil/zz_verif_c33_test.go)",
         "reference model of dpkg's verrevcmp written from lib/dpkg/version.c; cross-checked against /usr/bin/dpkg on a sample",
     ],
-    assumptions=["PARTIAL: agreement with dpkg is proved only on a complete finite domain (strings <= 3 over `0a.~-`); beyond it it is monitored on the implementation (reference model on every pair, /usr/bin/dpkg on a sample), not proved. Transitivity (strict, both directions) and congruence of equality are proved for all NUL-free byte strings of any length (proofs/VersionOrder.v); reflexivity, sign flip, antisymmetry, totality, result range and epoch rejection for all byte strings.",
+    assumptions=["agreement with dpkg is proved for ALL structurally valid versions made of bytes 1..255, of any length (C33_matches_debian, proofs/VersionDpkg.v: simulation between the fragment loop of compareSubversion and the character loop of the reference model of dpkg's verrevcmp; the chOrder table enters through one fact checked on all 256x256 pairs of symbols). The reference model of verrevcmp is hand-written from lib/dpkg/version.c and cross-checked against /usr/bin/dpkg on a sample; the finite-domain check (strings <= 3 over `0a.~-`) is kept as a regression check. Transitivity (strict, both directions) and congruence of equality are proved for all NUL-free byte strings of any length (proofs/VersionOrder.v); reflexivity, sign flip, antisymmetry, totality, result range and epoch rejection for all byte strings.",
                  "strings containing a NUL byte are outside the version alphabet (the transitivity theorem assumes bytes in 1..255: NUL is the padding byte of cmpString; with NUL inside a fragment transitivity is not claimed)",
-                 "dpkg agreement is stated for structurally valid versions: non-empty upstream part, non-empty revision after a hyphen"],
+                 "dpkg agreement is stated for structurally valid versions: non-empty upstream part, non-empty revision after a hyphen (needed: against the empty string snapd orders `0` greater while dpkg orders it equal — C33_matches_debian_needs_nonempty; the empty string is not a Debian version)"],
 )
